@@ -127,6 +127,7 @@ func main() {
 		os.Exit(2)
 	}
 	core.IsNewFunc = p.IsNewSinceSnapshot
+	core.AllRepoFuncs = p.RepoFuncs
 	kf := loadKnown(*known)
 	exit := 0
 	for _, id := range props {
